@@ -6,7 +6,7 @@ from niltype import Nil, Nilable
 from .._props import Props
 from .._schema_visitor import SchemaVisitor
 from .._schema_visitor import SchemaVisitorReturnType as ReturnType
-from ..errors import make_already_declared_error, make_invalid_type_error
+from ..errors import DeclarationError, make_already_declared_error, make_invalid_type_error
 from ._schema import Schema
 
 __all__ = ("UUID4Schema", "UUID4Props",)
@@ -25,6 +25,10 @@ class UUID4Schema(Schema[UUID4Props]):
     def __call__(self, /, value: UUID) -> "UUID4Schema":
         if not isinstance(value, UUID):
             raise make_invalid_type_error(self, value, (UUID,))
+
+        if value.version != 4:
+            message = f"`{self!r}` value must be a UUID version 4, version {value.version} given"
+            raise DeclarationError(message)
 
         if self.props.value is not Nil:
             raise make_already_declared_error(self)
